@@ -103,6 +103,12 @@ def gen_unit(rng):
             vs = rng.sample(POOL, rng.randint(1, 4))
             out.append("TYPE\n  %s : (%s) := %s;\nEND_TYPE" % (n, ", ".join(_case(rng, v) for v in vs), vs[0]))
             enums[n] = vs
+    # a structure with an element of an enumeration type and an initial value (declared, a value of another type, or of a type
+    # that is not declared at all -- also when the unit declares no enumeration)
+    if rng.random() < 0.35:
+        e = rng.choice(list(enums) + ["NoSuchEn"])
+        val = rng.choice(enums[e]) if e in enums and rng.random() < 0.7 else rng.choice(POOL)
+        out.append("TYPE\n  St0 : STRUCT\n    m : INT;\n    c : %s := %s;\n  END_STRUCT;\nEND_TYPE" % (_case(rng, e), _case(rng, val)))
     fbs = {}
     nfb = rng.randint(1, 3)
     for i in range(nfb):
@@ -110,6 +116,9 @@ def gen_unit(rng):
         names = rng.sample(POOL, rng.randint(2, 6))
         lines = ["FUNCTION_BLOCK %s" % n]
         ins, outs, inouts = [], [], []
+        if rng.random() < 0.15:
+            # a variable of a type that is not declared, with an enumerated value
+            lines += ["VAR", "  lvl%d : NoSuchEn := %s;" % (i, _case(rng, rng.choice(POOL))), "END_VAR"]
         for v in names:
             k = rng.random()
             if k < 0.3:
